@@ -6,7 +6,7 @@ from hypothesis import strategies as st
 
 from engine import lib, scen, xforms, zz9enc
 from engine.cmp import close
-from engine.oracle import Oracle
+from engine.oracle import Oracle, apparent_dims
 from engine.runner import SubCheck
 from props.c02 import _specs
 
@@ -31,7 +31,9 @@ ASSUMPTIONS = [
 ]
 
 SHAPES = [("cat", "cat")] * 5 + [("mr", "cat"), ("cat", "mr"), ("cai", "cac"), ("cac", "cai"),
-                                  ("cat_date", "cat"), ("cat", "cat_date")]
+                                  ("cat_date", "cat"), ("cat", "cat_date"),
+                                  # 3-D: the scale statistics of every slice of one cube
+                                  ("cat", "cat", "cat"), ("mr", "cat", "cat"), ("cat", "cat", "mr")]
 
 
 @st.composite
@@ -101,11 +103,22 @@ def _halfway_event(pairs, rec):
 
 
 def judge_slice(case, rec):
+    """Every slice of the cube is judged against its own respondents (3-D: one slice per
+    table element, read one after the other on the same cube)."""
     sv, q = case["survey"], case["query"]
-    part = lib.cube(zz9enc.encode(sv, q), case["transforms"]).partitions[0]
-    lib.warm(part, case.get("warmup"))
-    orc = Oracle(sv, q)
+    parts = lib.cube(zz9enc.encode(sv, q), case["transforms"]).partitions
     rec.event("shape=" + "x".join(case["shape"]))
+    dims = apparent_dims(sv, q)
+    tkeys = dims[0].keys if len(dims) == 3 else [None]
+    if len(dims) == 3 and len(parts) > 1:
+        rec.event("3-D: several slices")
+    for part, tkey in zip(parts, tkeys):
+        _judge_slice_part(case, rec, part, Oracle(sv, q, table_key=tkey))
+
+
+def _judge_slice_part(case, rec, part, orc):
+    sv, q = case["survey"], case["query"]
+    lib.warm(part, case.get("warmup"))
     rspecs, cspecs = _specs(part, orc, case)
     integer = orc.W is None or all(float(w).is_integer() for w in sv["weights"])
     for axis in (0, 1):
